@@ -76,6 +76,9 @@ def run(ctx):
         r7_lookup(ctx, facts, cfg)
         r9_csv_writer(ctx, facts, cfg)
         r10_get_valid_logger(ctx, facts, cfg)
+        # no raw pointer to a sink outlives the pass that collected it (the sink may be destroyed by the next clean-up) = C06.R4f
+        from rules import c06
+        c06.r4f_cache_emptied(ctx, facts, cfg, rule="C17.R11")
         # the public entry point reaches the registry: Frontend::remove_logger(l) calls LoggerManager::remove_logger(l)
         from rules.common import forwards
         forwards(ctx, facts, cfg, "C17.R8", "quill::FrontendImpl::remove_logger", r"LoggerManager::remove_logger$",
